@@ -105,6 +105,10 @@ def _more_calls(net, lat, lon, W, plain_names):
                    "local_admittive_clustering", "global_admittive_clustering", "average_effective_resistance",
                    "diameter_effective_resistance", "get_admittance"):
             calls.append(("R." + nm, getattr(rnet, nm)))
+    # second pass on the same objects: by now every store / memo of the first pass is filled (a per-node answer
+    # must not depend on what was asked before, in either numbering)
+    calls += [(label + "@again", thunk) for label, thunk in calls
+              if label.startswith(("R.", "G.")) and "distribution" not in label]
     return calls
 
 
